@@ -4,6 +4,7 @@ import SameVerif.Spec.OracleC06
 import SameVerif.Spec.OracleC16
 import SameVerif.Model.Events
 import SameVerif.Model.HeaderSem
+import SameVerif.Model.Spawner
 import SameVerif.Model.Time
 import SameVerif.Spec.OracleC15
 import SameVerif.Model.Framer
@@ -1030,6 +1031,16 @@ def handleOp (args : List String) : String :=
     match unhex seed, pos.toNat? with
     | some seed, some pos => s!"{(hdrnbhd seed pos).toNat}"
     | _, _ => "bad-op"
+  | ["app.env", hdr, rate, year, doy] =>
+    match unhex hdr, unhex rate, year.toInt?, doy.toNat? with
+    | some hdr, some rate, some year, some doy =>
+      match Header.new hdr with
+      | .error _ => "not-a-header"
+      | .ok h =>
+        match childEnv h (bytesToNats rate) year doy with
+        | .error _ => "PANIC"
+        | .ok e => ",".intercalate (e.sorted.map (fun (k, v) => s!"{k}={hexOf (natsToBytes v)}"))
+    | _, _, _, _ => "bad-op"
   | ["app.run", n, live, flushed, quiet, child, _spawn] =>
     match parseAppInput n live flushed with
     | some inp =>
